@@ -48,7 +48,8 @@ def gen(R):
             decs = []
             for _ in range(R.weighted([(3, 1), (1, 2)])):
                 decs.append({"type": R.choice(TYPES), "filter": R.int(0, len(FILTERS) - 1), "kwargs": R.choice([None, None, {"extra": 1}, {"n": "over"}])})
-            funcs.append({"decs": decs, "sleep": R.choice([0, 0, 5, 30]), "emit": R.bool(1, 2)})
+            funcs.append({"decs": decs, "sleep": R.choice([0, 0, 5, 30]), "emit": R.bool(1, 2),
+                          "fire_extra": R.choice(["", "", ", context='kitchen'", ", context=None, level=3", ", value=[1, 2], trigger_type='x'", ", context={'a': 1}"])})
         ops = []
         for _ in range(R.int(1, 10)):
             gap = R.choice([0.5, 2.0, 12.0, 40.0])
@@ -88,7 +89,7 @@ def script(case):
             ]
             if f["emit"]:
                 L += [
-                    f"    event.fire('out_ev', src='f{fi}', seq=kw.get('seq'), payload=kw)",
+                    f"    event.fire('out_ev', src='f{fi}', seq=kw.get('seq'), payload=kw{f['fire_extra']})",
                     f"    state.set('pyscript.out_f{fi}', kw.get('seq'), who='f{fi}')",
                     f"    service.call('vtest', 'rec', src='f{fi}', seq=kw.get('seq'))",
                 ]
@@ -277,8 +278,12 @@ def model_and_compare(case, r):
             exp_payload = None
             want = seq_ctx.get(data.get("seq"))
             # round trip: the event carries exactly the given parameters
-            if set(data.keys()) != {"src", "seq", "payload"}:
+            fn_spec = case["funcs"][int(str(data.get("src", "f0"))[1:])] if str(data.get("src", "")).startswith("f") else None
+            extra_exp = eval("dict(" + fn_spec["fire_extra"].lstrip(", ") + ")") if fn_spec and fn_spec["fire_extra"] else {}  # noqa: S307 - fixed strings
+            if set(data.keys()) != {"src", "seq", "payload"} | set(extra_exp):
                 problems.append("event.fire-params")
+            elif any(data[k] != v for k, v in extra_exp.items()):
+                problems.append("event.fire-values")
             else:
                 want_kw = [kw for key, lst in starts.items() if key[0] == data["src"] for rel, kw, tid, rc in lst if kw.get("seq") == data["seq"]]
                 if not want_kw or all(data["payload"] != clean_kw(w) for w in want_kw):
